@@ -217,6 +217,17 @@ class Flow(object):
                 for x in (ch.lower, ch.upper, ch.step):
                     self.walk_expr(x, defined, facts, cfgnode, st)
 
+    def _module_const_fact(self, name):
+        try:
+            tree = self.fi.module.tree
+        except AttributeError:
+            return None
+        vals = [st.value for st in tree.body if isinstance(st, ast.Assign) and any(isinstance(t, ast.Name) and t.id == name for t in st.targets)]
+        local = any(isinstance(x, ast.Name) and x.id == name and isinstance(x.ctx, ast.Store) for x in ast.walk(self.fi.node))
+        if len(vals) == 1 and not local and isinstance(vals[0], (ast.Constant, ast.BinOp, ast.UnaryOp)):
+            return value_fact(vals[0])
+        return None
+
     def maybe_none(self, e, facts):
         p = _path_of(e)
         if p is None:
@@ -337,6 +348,9 @@ class Flow(object):
                             sf = dict(nf).get(sp)
                             if sf in ('none', 'notnone'):
                                 vf = sf
+                    if vf is None and isinstance(a.value, ast.Name):
+                        # a module-level constant (`_NO_TIMEOUT = 1e6`): bound once at module level to a literal that is not None
+                        vf = self._module_const_fact(a.value.id)
                     if vf:
                         nf = add_facts(nf, [(p, vf)])
                 elif n.kind == 'stmt' and isinstance(a, ast.AugAssign):
